@@ -277,3 +277,14 @@ func (in *Interp) findMethod(t types.Type, name string) *ssa.Function {
 	}
 	return in.prog.MethodValue(sel)
 }
+
+func init() {
+	intrinsics["math.Mod"] = func(in *Interp, fr *frame, args []Value) Value {
+		x, y := args[0].(*Term), args[1].(*Term)
+		if x.op == OpConst && y.op == OpConst {
+			return in.fpConst(64, mathMod(fpConstFloat(x), fpConstFloat(y)))
+		}
+		in.unsupported("math.Mod on symbolic operands")
+		return nil
+	}
+}
